@@ -3,6 +3,7 @@
 //
 //  hilbert.real      real(hilbert(x)) == x                       max |.| <= tol(n) ||x||_2,  tol(n) = max(1e-12, 64 n eps)
 //  hilbert.negfreq   own long-double DFT of hilbert(x), bins k > n/2   max |H_k| <= tol(n) ||X||_2 (= sqrt(n) ||x||_2)
+//  hilbert.posbins   same DFT, bins k <= n/2: Z[0] = X[0], Z[k] = 2 X[k], Z[n/2] = X[n/2] (even n), |.| <= tol(n) ||X||_2
 //  hilbert.npoint    hilbert(x, n') == hilbert(x padded / truncated to n') (size, values, negative bins)
 //  hfilter.response  |H(f) - (-j) e^{-j 2 pi f D}| <= 1e-3 on a 0.0005 grid over the stated pass-band, H = DTFT of impz()
 //  hfilter.process   real part = input delayed by D = M/2 bit-exactly; imaginary part of a tone = tone shifted by
@@ -196,6 +197,45 @@ static void check_analytic(Ctx& ctx, const arr_real& x, const arr_cmplx& h, bool
     }
 }
 
+// positive half of the spectrum of h = hilbert(x): Z[0] = X[0], Z[k] = 2 X[k] for 0 < k < n/2, Z[n/2] = X[n/2] (even n) - the
+// textbook analytic signal (DC and Nyquist weight 1, the convention of the repaired tree).  X and Z from the harness's own
+// long-double DFT; tolerance as for the negative bins.
+static void check_posbins(Ctx& ctx, const arr_real& x, const arr_cmplx& h) {
+    const int n = x.size();
+    if (h.size() != n) {
+        ctx.fail("hilbert", fmt("result has %d elements", h.size()), fmt("%d", n), P().kv("kind", "size"));
+        return;
+    }
+    if (!finite_arr(h)) {
+        ctx.fail("hilbert", "non-finite output " + showc(h), "finite", P().kv("kind", "nonfinite"));
+        return;
+    }
+    const auto& tw = twtab(n);
+    const ld tolX = reltol(n) * sqrtl((ld)n) * norm2(x);
+    ld worst = 0;
+    int kw = -1;
+    cld zw = 0, xw = 0;
+    for (int k = 0; k <= n / 2; ++k) {
+        cld X = 0, Z = 0;
+        int idx = 0;
+        for (int m = 0; m < n; ++m) {
+            X += (ld)x[m] * tw[idx];
+            Z += cld(h[m].re, h[m].im) * tw[idx];
+            idx += k;
+            if (idx >= n) idx -= n;
+        }
+        const ld w = (k == 0 || (n % 2 == 0 && k == n / 2)) ? 1.0L : 2.0L;
+        const ld e = std::abs(Z - w * X);
+        if (!(e <= worst)) worst = e, kw = k, zw = Z, xw = w * X;
+    }
+    if (!(worst <= tolX))
+        ctx.fail("hilbert", fmt("DFT(hilbert(x))[%d] = (%.9Lg, %.9Lg)", kw, zw.real(), zw.imag()),
+                 fmt("%s X[%d] = (%.9Lg, %.9Lg) within %.3Lg", (kw == 0 || (n % 2 == 0 && kw == n / 2)) ? "1 *" : "2 *", kw, xw.real(), xw.imag(), tolX),
+                 P().kv("kind", "posbins").kv("k", kw).kv("dc_or_nyquist", kw == 0 || (n % 2 == 0 && kw == n / 2)));
+    else
+        ctx.worst("hilbert: max |Z[k] - w X[k]| on k <= n/2 / (tol ||X||)", (double)(worst / tolX));
+}
+
 // a library call that throws on an in-domain input is an observed outcome of the case, not a harness crash
 #define GUARD_BEGIN try {
 #define GUARD_END(site)                                                                                                  \
@@ -267,6 +307,20 @@ static void run_hilbert(Ctx& ctx, bool T) {
             arr_cmplx h = hilbert(x);
             if (nonzeros(x) >= 2) ctx.nontrivial();
             check_analytic(ctx, x, h, false, true);
+            GUARD_END("hilbert")
+        }
+    }
+    // positive bins incl. DC and Nyquist (letters with content in bin n/2: alternating sign, leakage of off-bin tones, LCG)
+    for (int n : ns) {
+        if (n > (T ? 2048 : 512) && n != 1000 && n != 1023 && n != 1024 && n != 4095 && n != 4096) continue;
+        for (int l : {(int)L_CONST, (int)L_ALT, (int)L_TOFF, (int)L_TDC, (int)L_LCG}) {
+            if (!ctx.take("hilbert.posbins", P().kv("n", n).kv("letter", LNAME[l]))) continue;
+            GUARD_BEGIN
+            arr_real x = letter(n, l);
+            arr_cmplx h = hilbert(x);
+            ctx.nontrivial();
+            ctx.note(std::string("hilbert.posbins n ") + (n % 2 ? "odd" : "even"));
+            check_posbins(ctx, x, h);
             GUARD_END("hilbert")
         }
     }
